@@ -150,11 +150,15 @@ contract("bacpypes.primitivedata:CharacterString.encode",
     post={"tag.tagClass": "0", "tag.tagNumber": "7", "tag.tagData": "bytes([self.strEncoding]) + self.strValue",
           "tag.tagLVT": "1 + len(self.strValue)"})
 
+from bacpypes.primitivedata import CharacterString
+
 contract("bacpypes.primitivedata:CharacterString.__init__", name="bacpypes.primitivedata:CharacterString.__init__[copy]",
     params={"self": Obj("bacpypes.primitivedata:CharacterString"),
             "arg": Obj("bacpypes.primitivedata:CharacterString", value=Str(), strEncoding=Int(0, 255), strValue=Bytes())},
     post={"self.value": "arg.value", "self.strEncoding": "arg.strEncoding", "self.strValue": "arg.strValue"},
     modifies=["self.value", "self.strEncoding", "self.strValue"],
+    # the clause is about the copy form only: CharacterString(None / str / Tag) call sites are not instances of it (the body is interpreted there)
+    applies_when="isinstance(arg, CharacterString)",
     note="a copy carries the character set and the raw octets of its source, so it encodes to the same octets (any character set octet, any string octets)")
 
 contract("bacpypes.primitivedata:Date.encode",
